@@ -195,6 +195,11 @@ Definition opsE (u v : content) : list op := [OGet 0; OGet 1; OUpd 0 u; OUpd 1 v
 Definition U2112 : list config :=
   flat_map (fun a => flat_map (fun b => map (fun c => mkCfg 6 [(0, cA); (1, cB)] [[a; b]; [c]]) (opsE u4 u4)) (opsE u3 u1)) (opsE u1 u3).
 
+(* 3 client threads x 1 get on files {0,1}, both on disk, max_memory 6: a load completes while another file's
+   entry is cached or touched (eviction with three parties) *)
+Definition U31e : list config :=
+  flat_map (fun a => flat_map (fun b => map (fun c => mkCfg 6 [(0, cA); (1, cB)] [[a]; [b]; [c]]) [OGet 0; OGet 1]) [OGet 0; OGet 1]) [OGet 0; OGet 1].
+
 (* the configuration class of the known defect: two different threads, same file, one may have an entry in
    flight (get or update) while the other unloads it (unload_file, or update_file against a get) *)
 Definition op_file (o : op) : file := match o with OGet f | OUpd f _ | OUnl f => f end.
